@@ -165,3 +165,36 @@ Example ex_pack :
       ("/d/part.3.parquet", "/d/part.1.parquet", 2)],
      [("a", [nanbox; (Some 1, Some 1, Some 2, Some 2)%Z])]).
 Proof. vm_compute; reflexivity. Qed.
+
+(* ---- bounds values that are not integers (binary64 extents in general) ----
+   The model never computes with a bounds value, it copies and compares: every
+   function of the reader commutes with a strictly increasing renaming of the
+   numbers (NaN stays NaN).  The correspondence run uses this to hand arbitrary
+   binary64 extents to the model exactly: all numbers of a case multiplied by one
+   power of two, or replaced by their ranks (harness/c12_util.py transport). *)
+From SP Require Import Proofs.MetaCodecOrderProofs.
+
+(* the table loaded from a document does not depend on what the numbers are (any f) *)
+Theorem C12_load_values_parametric : forall (f : Z -> Z) j,
+  load (jmap f j) = option_map (map (bmap f)) (load j).
+Proof. exact load_mono. Qed.
+Print Assumptions C12_load_values_parametric.
+
+(* the bounds= test only looks at the order of the numbers *)
+Theorem C12_keep_order_invariant : forall f, increasing f ->
+  forall q b, keep (qmap f q) (bmap f b) = keep q b.
+Proof. exact keep_mono. Qed.
+Print Assumptions C12_keep_order_invariant.
+
+(* read_parquet_dask(paths, geometry=active, bounds=q) on renamed numbers: the same
+   partitions are kept and the bounds reported are the renamed bounds *)
+Theorem C12_read_order_invariant : forall f, increasing f ->
+  forall ds n active q,
+  read_bounds (dsmap f ds) n active (option_map (qmap f) q)
+  = option_map (fun r => (cbmap f (fst r), snd r)) (read_bounds ds n active q).
+Proof. exact read_bounds_mono. Qed.
+Print Assumptions C12_read_order_invariant.
+
+(* multiplying by a power of two is such a renaming *)
+Example ex_scaling_increasing : forall k : Z, (0 <= k)%Z -> increasing (fun z => z * 2 ^ k)%Z.
+Proof. exact scaling_increasing. Qed.
